@@ -341,15 +341,32 @@ static inline int dlist_size_reversed(struct dlist_head *head)
     return sz;
 }
 
+/**
+ * True when head is a member of a well-formed ring of at most 1000
+ * nodes: the walk along next comes back to head and every visited
+ * node is pointed back at by its successor (it->next->prev == it).
+ * The back-pointer test makes next injective on the visited nodes,
+ * so the walk cannot be trapped in a cycle that does not contain head.
+ */
 static inline bool dlist_is_correct(struct dlist_head *head)
 {
-    int check = dlist_check(head, 1000);
-    if (check < 0)
-        return false;
-    int rcheck = dlist_check_reversed(head, 1000);
-    if (rcheck < 0)
-        return false;
-    return check == rcheck;
+    int count = 1000;
+    struct dlist_head *it = head;
+
+    while (count--)
+    {
+        struct dlist_head *next = it->next;
+
+        if (next->prev != it)
+            return false;
+
+        if (next == head)
+            return true;
+
+        it = next;
+    }
+
+    return false;
 }
 
 __END_DECLS
